@@ -105,6 +105,9 @@ def call_job(prog, name, arg_lists, deadline, seed=0, mode='values', label='', n
             e = out.fields[0].v; kind = XP.reason_kind(e)
             # ---- C12: runtime error metadata
             off = XP.err_field(e, 'offset').concrete(); exprs = XP.err_field(e, 'expression').concrete()
+            nonfin = sp is not None and sp[0] == 'ok' and isinstance(sp[1], float) and (math.isinf(sp[1]) or math.isnan(sp[1]))
+            if kind == 'parse' and nonfin:
+                S.cand('c12:nonfinite-result-as-parse', f'{name}: a search whose numeric result is not finite reports a Parse-class error with expression {exprs!r}', {'expr': req['expr']}, req, expected='runtime error'); return
             if kind == 'parse': S.cand('c12:runtime-error-as-parse', f'{name}: a failing search reports a Parse-class error', {'expr': req['expr']}, req, expected='runtime error')
             elif exprs != EXPR_TEXT: S.cand('c12:error-expression', f'{name}: runtime error does not carry the expression text', {'expr': req['expr']}, req, expected='expression text')
             elif off != exp_off: S.cand('c12:runtime-error-offset', f'{name}: runtime error points at offset {off}, the failing call is at {exp_off}', {'expr': req['expr'], 'args': [lit_text(a) for a in args]}, req, expected='offset of the failing call')
